@@ -330,6 +330,7 @@ pub fn check_rng_seq(t: &mut Tally, seed: [u8; 16], lens: &[usize]) {
     }
     // 0 = unused, 1 = handed out as a whole block, 2 = source of a tail
     let mut used = vec![0u8; n_blocks];
+    let mut tail_ranges: Vec<(usize, usize, usize)> = vec![];
     for (ri, (out, want_len)) in outs.iter().zip(lens).enumerate() {
         if out.len() != *want_len {
             t.bad(format!("AES generator returned {} bytes for a request of {} (request {} of a sequence)", out.len(), want_len, ri));
@@ -356,17 +357,27 @@ pub fn check_rng_seq(t: &mut Tally, seed: [u8; 16], lens: &[usize]) {
             'find: for c in 0..n_blocks {
                 for off in (0..=16 - tail.len()).step_by(4) {
                     if ks[c * 16 + off..c * 16 + off + tail.len()] == *tail {
-                        src = Some(c);
+                        src = Some((c, off));
                         break 'find;
                     }
                 }
             }
             match src {
-                Some(c) if used[c] == 1 => {
+                Some((c, _)) if used[c] == 1 => {
                     t.bad("AES generator: the tail of a request comes from a keystream block that was handed out as a whole block (counter value reused)".to_string());
                     return;
                 }
-                Some(c) => used[c] = 2,
+                Some((c, off)) => {
+                    // successive tails legitimately take successive words of one buffered block; handing
+                    // out the same bytes of a block twice is a reuse
+                    let (a0, a1) = (off, off + tail.len());
+                    if tail_ranges.iter().any(|(cc, b0, b1)| *cc == c && a0 < *b1 && *b0 < a1) {
+                        t.bad("AES generator: two tails of one sequence hand out the same bytes of a keystream block (counter value reused)".to_string());
+                        return;
+                    }
+                    tail_ranges.push((c, a0, a1));
+                    used[c] = 2;
+                }
                 None => {
                     // a tail may be assembled from two buffered blocks; not judged
                 }
